@@ -2,8 +2,9 @@
 
 Built from /repo's *current working tree* on every run, in a temp directory
 outside /repo and /verif, and removed at exit.  Function bodies, class bodies
-and defaults are the repository's own; only ``import numpy/scipy/numba`` and
-``emg3d`` self-imports are redirected (ast rewrite).
+and defaults are the repository's own; only ``import numpy/scipy/numba``,
+``concurrent.futures``/``tqdm`` (process-pool environment model, symx.cfmodel)
+and ``emg3d`` self-imports are redirected (ast rewrite).
 """
 import os
 import ast
@@ -39,6 +40,17 @@ class _Rewrite(ast.NodeTransformer):
                 out.append(ast.ImportFrom(
                     'symx', [ast.alias('symnb', a.asname or 'numba')], 0))
                 self.count += 1
+            elif top == 'tqdm':
+                # process-pool / progress-bar environment -> model (cfmodel)
+                out.append(ast.ImportFrom(
+                    'symx.cfmodel', [ast.alias('TqdmModel',
+                                               a.asname or 'tqdm')], 0))
+                self.count += 1
+            elif a.name == 'concurrent.futures':
+                out.append(ast.ImportFrom(
+                    'symx', [ast.alias('cfmodel', a.asname or 'concurrent')],
+                    0))
+                self.count += 1
             elif top == 'emg3d':
                 new = SHADOW_NAME + a.name[len('emg3d'):]
                 out.append(ast.Import([ast.alias(new, a.asname)]))
@@ -51,6 +63,14 @@ class _Rewrite(ast.NodeTransformer):
         if node.level == 0 and node.module and (
                 node.module == 'emg3d' or node.module.startswith('emg3d.')):
             node.module = SHADOW_NAME + node.module[len('emg3d'):]
+            self.count += 1
+        elif node.level == 0 and node.module == 'concurrent.futures':
+            node.module = 'symx.cfmodel'
+            self.count += 1
+        elif node.level == 0 and node.module == 'concurrent':
+            node.module = 'symx'
+            node.names = [ast.alias('cfmodel', a.asname or a.name)
+                          if a.name == 'futures' else a for a in node.names]
             self.count += 1
         return node
 
